@@ -809,6 +809,28 @@ pub fn check(ctx: &Ctx, rep: &mut Report) {
             combos.push(vec![CS::PrimaryKey, CS::AutoInc]);
             combos.push(vec![CS::AutoInc, CS::PrimaryKey]);
             combos.push(vec![CS::NotNull, CS::AutoInc, CS::PrimaryKey]);
+            // every order of primary key / auto increment / not null / default
+            let base = [CS::PrimaryKey, CS::AutoInc, CS::NotNull, CS::Default(DefVal::Int(5))];
+            let mut idx = [0usize, 1, 2, 3];
+            let mut perms: Vec<[usize; 4]> = vec![];
+            fn heap(k: usize, a: &mut [usize; 4], out: &mut Vec<[usize; 4]>) {
+                if k == 1 {
+                    out.push(*a);
+                    return;
+                }
+                for i in 0..k {
+                    heap(k - 1, a, out);
+                    if k % 2 == 0 {
+                        a.swap(i, k - 1);
+                    } else {
+                        a.swap(0, k - 1);
+                    }
+                }
+            }
+            heap(4, &mut idx, &mut perms);
+            for pm in perms {
+                combos.push(pm.iter().map(|i| base[*i].clone()).collect());
+            }
         }
         for specs in combos {
             if ctx.mine(n) {
